@@ -89,6 +89,9 @@ func runNGAPSweep(ctx *Ctx, prop string) {
 				node = g.Value(u.typ, refper.ParseTag("valueExt"), u.typ)
 			}
 			cs := u.name() + " " + c.Describe()
+			if ngapgen.LargeDefault {
+				cs = u.name() + " [all strings 200 units] " + c.Describe()
+			}
 			lc := "default"
 			for i := len(c.Picks) - 1; i >= 0; i-- {
 				if c.Picks[i] != 0 {
@@ -199,6 +202,14 @@ func runNGAPSweep(ctx *Ctx, prop string) {
 		leavesTotal += g0.Leaves
 		st := explore.Explore(explore.Config{Bound: bound, Workers: Workers(), Deadline: deadline}, body)
 		r.Add("executions", st.Executions)
+		// second base value: every variable-size string long (quick: its single deviations; thorough: the same bound)
+		ngapgen.LargeDefault = true
+		stL := explore.Explore(explore.Config{Bound: bound, Workers: Workers(), Deadline: deadline}, body)
+		ngapgen.LargeDefault = false
+		r.Add("executions", stL.Executions)
+		if !stL.Complete {
+			st.Complete = false
+		}
 		if st.Level1 != "" {
 			r.Consistent("level-1 vectors of "+u.name(), st.Level1)
 		}
@@ -221,7 +232,7 @@ func runNGAPSweep(ctx *Ctx, prop string) {
 		r.NotExhaustive(fmt.Sprintf("budget ended; not completed at bound %d: %v", bound, cut))
 	}
 	ngapPrimitiveSweep(ctx, prop)
-	r.Rule = fmt.Sprintf("for each of %d NGAP message / transfer-container types: the all-default value (every IE and optional component present) and every value with <=%d deviations, a deviation being one leaf moved to another member of its boundary alphabet "+
+	r.Rule = fmt.Sprintf("for each of %d NGAP message / transfer-container types: the all-default value (every IE and optional component present) and every value with <=%d deviations from it, the same again around a second base value in which every variable-size string is 200 units long, a deviation being one leaf moved to another member of its boundary alphabet "+
 		"(INTEGER: lb, lb+1, 2^k-1, 2^k, ub-1, ub, extension values; strings: sizes lb, lb+1, 2, 3, 16, 17, 127, 128, 255, 256, ub-1, ub, 16383, ub+1 if extensible x 3 contents; ENUMERATED all root values; CHOICE every alternative; OPTIONAL absent; SEQUENCE OF sizes; IE containers: each IE alone / empty; criticalities); "+
 		"plus the primitive sweep on synthetic types (every range size 1..257 and the large ranges, every bit offset 0..7); oracle %s; non-trivial = at least one deviation; distinct = distinct (type, choice vector)", len(units), bound,
 		map[string]string{"C03": "bytes == refper (independent X.691 ALIGNED PER encoder over the frozen schema), out-of-constraint values refused", "C04": "decode(encode(v)) == v; reference encoding accepted, decodes to v, re-encodes to the same bytes"}[prop])
